@@ -930,7 +930,7 @@ func (c *checker) checkStacksEqual(x *execRun, who string, n int) {
 	}
 	for k := 1; k < n; k++ {
 		a, b := x.em[0], x.em[k]
-		if x.d.SlowEmit {
+		if x.d.SlowEmit || x.d.ShareErr {
 			a, b = byName(a), byName(b)
 		}
 		same := len(a) == len(b)
